@@ -38,10 +38,12 @@ VARIABLES l,        \* next line of Trace
           mdev,     \* monitor: the device's state as last reported by the device itself ("?": not yet)
           minfl,    \* monitor: delivered transition requests of a controllable task not answered yet
           mlastT,   \* monitor: last delivered transition request
+          mlastAny, \* monitor: last request issued, delivered or not
+          m2,       \* monitor: the second task of the same executor: [launch, running, terminal] seen
           mkseen,   \* monitor: a Kill was delivered (its teardown talks to the device on its own)
           nviol
 
-tvars == <<l, mode, scn, cands, mk, msent, mlast, mlastSK, mkillAt, mown, mdone, mgone, mdev, minfl, mlastT, mkseen, nviol>>
+tvars == <<l, mode, scn, cands, mk, msent, mlast, mlastSK, mkillAt, mown, mdone, mgone, mdev, minfl, mlastT, mlastAny, m2, mkseen, nviol>>
 allvars == <<vars, tvars>>
 
 Line == Trace[l]
@@ -114,6 +116,7 @@ Blame(q, site) == <<q.r, q.inst, q.nth, site, q.late>>
 MonitorStep ==
   LET sent2 == IF Line.ev = "Status" THEN Append(msent, Short(Line.state)) ELSE msent
       last2 == IF IsDeliveredReq /\ Line.r = "Kill" THEN ReqRec ELSE mlast
+      lastAny2 == IF Line.ev = "Req" THEN ReqRec ELSE mlastAny
       lastSK2 == IF IsDeliveredReq /\ Line.r \in {"STOP", "Kill"} THEN ReqRec ELSE mlastSK
       own2 == mown \/ Line.ev = "Release"
               \/ (Line.ev = "Resp" /\ Line.r \in {"START", "Trigger"} /\ ~Line.err /\ mk.beh = "crash")
@@ -129,7 +132,7 @@ MonitorStep ==
      /\ minfl' = IF mk.kind # "ctl" THEN 0
                   ELSE IF IsDeliveredReq /\ IsTrans(Line.r) THEN minfl + 1
                   ELSE IF Line.ev = "Resp" /\ minfl > 0 THEN minfl - 1 ELSE minfl
-     /\ mdev' = mdev
+     /\ mdev' = mdev /\ m2' = m2 /\ mlastAny' = lastAny2
      /\ nviol' = nviol
           + Soft("OneTerminal", OneTerminalOf(sent2), Blame(last2, ""))
           + Soft("KilledNotFailed", KilledNotFailedOf(sent2, killAt2, own2), Blame(last2, ""))
@@ -137,12 +140,15 @@ MonitorStep ==
                  Blame(lastSK2, IF HasF("site") THEN Line.site ELSE "event loop"))
           + Soft("NoSurvivors", (Line.ev = "End" /\ done2) => Line.alive = 0, Blame(lastSK2, ""))
           + Soft("GoneIsGone", IsDeliveredReq => ~mgone, Blame(ReqRec, ""))
+          \* the executor goes on: other work handed to it after this task's requests is carried out within its bound
+          + Soft("ExecutorGoesOn", (Line.ev \in {"End", "LoopHung"} /\ m2.launch) => (m2.running /\ m2.terminal),
+                 Blame(lastAny2, IF Line.ev = "LoopHung" THEN "event loop blocked in " \o Line.step ELSE "second task not served"))
           \* (clause of C16) the state carried by the answer to a transition is the device's state at that moment
           + Soft("TransitionTruthful",
                  (Line.ev = "Resp" /\ mk.kind = "ctl" /\ IsTrans(Line.r) /\ mdev # "?" /\ Line.state # "") => Line.state \in {mdev, O2Of(mdev)},
                  Blame(mlastT, "answer " \o Line.state \o " / device " \o mdev))
 
-IsStep == Line.ev \notin {"Reset", "Occ"} /\ ~Skipped
+IsStep == Line.ev \notin {"Reset", "Occ", "Second", "Status2", "Proc2"} /\ ~Skipped
 
 TStep ==
   /\ l <= Len(Trace) /\ IsStep /\ mode = "ok"
@@ -161,7 +167,16 @@ TStepLost ==
 TSkip ==
   /\ l <= Len(Trace) /\ Line.ev # "Reset" /\ Skipped
   /\ l' = l + 1 /\ UNCHANGED <<vars, mode, scn, cands, mk, msent, mlast, mlastSK, mkillAt, mown, mdone, mgone, mdev, minfl, mlastT,
-                               mkseen, nviol>>
+                               mlastAny, m2, mkseen, nviol>>
+
+(* the second task of the same executor: facts for the monitor *)
+TSecond ==
+  /\ l <= Len(Trace) /\ Line.ev \in {"Second", "Status2", "Proc2"}
+  /\ m2' = [launch |-> m2.launch \/ (Line.ev = "Second" /\ Line.step = "launch"),
+            running |-> m2.running \/ (Line.ev = "Status2" /\ Line.state = "TASK_RUNNING"),
+            terminal |-> m2.terminal \/ (Line.ev = "Status2" /\ Terminal(Short(Line.state)))]
+  /\ l' = l + 1 /\ UNCHANGED <<vars, mode, scn, cands, mk, msent, mlast, mlastSK, mkillAt, mown, mdone, mgone, mdev, minfl, mlastT,
+                               mlastAny, mkseen, nviol>>
 
 (* what the device process wrote itself: not a step of the model, but facts for the monitor - the device's state, and
    (clause of C16) no device request of a transition is issued once that transition has been answered *)
@@ -170,23 +185,25 @@ TOcc ==
   /\ mdev' = IF HasF("st") THEN Line.st ELSE mdev
   /\ nviol' = nviol + Soft("TransitionTruthful", ~(Line.rpc = "Transition" /\ minfl = 0 /\ ~mkseen /\ mlastT.r # "none"),
                             Blame(mlastT, "device request after the answer"))
-  /\ l' = l + 1 /\ UNCHANGED <<vars, mode, scn, cands, mk, msent, mlast, mlastSK, mkillAt, mown, mdone, mgone, minfl, mlastT, mkseen>>
+  /\ l' = l + 1 /\ UNCHANGED <<vars, mode, scn, cands, mk, msent, mlast, mlastSK, mkillAt, mown, mdone, mgone, minfl, mlastT, mlastAny, m2, mkseen>>
 
 TReset ==
   /\ l <= Len(Trace) /\ Line.ev = "Reset"
   /\ cands' = {InitState(Line.kind, Line.beh, Line.hold)}
   /\ mode' = "ok" /\ scn' = Line.scn /\ mk' = [kind |-> Line.kind, beh |-> Line.beh]
   /\ msent' = <<>> /\ mlast' = NoReq /\ mlastSK' = NoReq /\ mkillAt' = 0 /\ mown' = FALSE /\ mdone' = FALSE /\ mgone' = FALSE
-  /\ mdev' = "?" /\ minfl' = 0 /\ mlastT' = NoReq /\ mkseen' = FALSE
+  /\ mdev' = "?" /\ minfl' = 0 /\ mlastT' = NoReq /\ mlastAny' = NoReq /\ mkseen' = FALSE
+  /\ m2' = [launch |-> FALSE, running |-> FALSE, terminal |-> FALSE]
   /\ l' = l + 1 /\ UNCHANGED <<vars, nviol>>
 
 TraceInit ==
   /\ Is(InitState("basic", "sleep", FALSE))
   /\ l = 1 /\ mode = "lost" /\ scn = -1 /\ cands = {} /\ mk = [kind |-> "basic", beh |-> "sleep"]
   /\ msent = <<>> /\ mlast = NoReq /\ mlastSK = NoReq /\ mkillAt = 0 /\ mown = FALSE /\ mdone = FALSE /\ mgone = FALSE /\ nviol = 0
-  /\ mdev = "?" /\ minfl = 0 /\ mlastT = NoReq /\ mkseen = FALSE
+  /\ mdev = "?" /\ minfl = 0 /\ mlastT = NoReq /\ mlastAny = NoReq /\ mkseen = FALSE
+  /\ m2 = [launch |-> FALSE, running |-> FALSE, terminal |-> FALSE]
 
-TraceNext == TStep \/ TStepLost \/ TSkip \/ TOcc \/ TReset
+TraceNext == TStep \/ TStepLost \/ TSkip \/ TOcc \/ TSecond \/ TReset
 
 TraceSpec == TraceInit /\ [][TraceNext]_allvars
 
